@@ -228,6 +228,8 @@ func zstream(z string, data []byte) []byte {
 		d := gen.Deflate(data, 6)
 		d[len(d)-1] ^= 0x5a
 		return d
+	case "fixed": // one final block with the fixed Huffman code (literals only), the way zlib / libpng emit tiny streams
+		return gen.DeflateFixed(data)
 	case "badblock": // valid zlib header, then a reserved block type: inflation stops at once, most of the chunk unread
 		d := gen.Deflate(data, 6)
 		d[2] = 0x07
